@@ -11,6 +11,7 @@ schedule step by step before they are reported.
 import ast
 import gc
 import os
+import threading
 import weakref
 
 import twosigma.memento as m
@@ -120,6 +121,12 @@ def run_threads(mode, entries, schedule, max_steps=6000, allow_unfired=False):
     """Run logical (G) or real (H) threads under the schedule; returns the driver object."""
     if mode == "G":
         s = sched.Sched(entries, schedule, max_steps=max_steps, allow_unfired=allow_unfired)
+        if not isinstance(getattr(_call_stack, "_call_stack_thread_local", None), (threading.local, sched.CoopLocal)):
+            from vp.engine import HarnessUnsupported
+
+            raise HarnessUnsupported("call_stack no longer keeps the per-thread call stack in the module-level threading.local "
+                                     "'_call_stack_thread_local': the cooperative scheduler cannot give its logical threads their own "
+                                     "(C09.thread_kinds decides the real-thread behaviour; the generator-based obligations need porting)")
         old = _call_stack._call_stack_thread_local
         _call_stack._call_stack_thread_local = sched.CoopLocal(weakref.ref(s))
         try:
@@ -1087,3 +1094,143 @@ def _run_scenario_lenient(store, key, state, schedule):
         return _run_scenario("G", store, key, state, schedule, 2)
     finally:
         sched.Sched.__init__ = orig
+
+
+# ------------------------------------------------------------------------------------------------
+# how the threads come into being (real threads in a real child interpreter; validation of the thread-local model)
+# ------------------------------------------------------------------------------------------------
+
+THREAD_KINDS = ["threading.Thread", "ThreadPoolExecutor", "asyncio.to_thread", "Thread running copy_context().run", "thread started from inside a running body"]
+TK_CHILD = r'''
+import sys, json, os, threading, asyncio, contextvars, concurrent.futures
+sys.path.insert(0, %(repo)r)
+import twosigma.memento as m
+from twosigma.memento.storage_filesystem import FilesystemStorageBackend
+from twosigma.memento.storage_memory import MemoryStorageBackend
+env = m.Environment(name="vp", base_dir=%(root)r, repos=[])
+env.default_cluster.storage = FilesystemStorageBackend(path=os.path.join(%(root)r, "store"), memory_cache_mb=1) if %(fs)r else MemoryStorageBackend()
+m.Environment.set(env)
+KIND, WARM = %(kind)r, %(warm)r
+trace, EV = [], {"in_outer": threading.Event(), "other_done": threading.Event()}
+
+@m.memento_function(version="1")
+def tk_inner(x):
+    trace.append(("tk_inner", x)); return x + 1
+
+@m.memento_function(version="1")
+def tk_outer(x):
+    trace.append(("tk_outer", x))
+    EV["in_outer"].set()
+    EV["other_done"].wait(20)      # the other thread's call comes and goes while this body is running
+    return tk_inner(x) * 2
+
+@m.memento_function(version="1")
+def tk_other(x):
+    trace.append(("tk_other", x)); return x * 100
+
+@m.memento_function(version="1")
+def tk_warm(x):
+    return x
+
+@m.memento_function(version="1")
+def tk_spawner(x):
+    # a body that starts the two threads itself and waits for them (the threads' calls are NOT calls of this body's thread)
+    out = run_two(threading.Thread)
+    return repr(out)
+
+def call_outer(out):
+    try:
+        out["outer"] = ("ok", tk_outer(1))
+    except BaseException as e:
+        out["outer"] = ("exc", type(e).__name__, str(e)[:200])
+
+def call_other(out):
+    EV["in_outer"].wait(20)
+    try:
+        out["other"] = ("ok", tk_other(2))
+    except BaseException as e:
+        out["other"] = ("exc", type(e).__name__, str(e)[:200])
+    finally:
+        EV["other_done"].set()
+
+def run_two(kind):
+    out = {}
+    if kind is threading.Thread or kind == "threading.Thread":
+        ts = [threading.Thread(target=call_outer, args=(out,)), threading.Thread(target=call_other, args=(out,))]
+        [t.start() for t in ts]; [t.join(60) for t in ts]
+    elif kind == "ThreadPoolExecutor":
+        with concurrent.futures.ThreadPoolExecutor(2) as ex:
+            fs = [ex.submit(call_outer, out), ex.submit(call_other, out)]
+            [f.result(60) for f in fs]
+    elif kind == "asyncio.to_thread":
+        async def prog():
+            await asyncio.gather(asyncio.to_thread(call_outer, out), asyncio.to_thread(call_other, out))
+        asyncio.run(prog())
+    else:
+        ts = [threading.Thread(target=contextvars.copy_context().run, args=(call_outer, out)),
+              threading.Thread(target=contextvars.copy_context().run, args=(call_other, out))]
+        [t.start() for t in ts]; [t.join(60) for t in ts]
+    return out
+
+if WARM:
+    tk_warm(0)          # the creating thread has used memento before
+if KIND == "thread started from inside a running body":
+    res = tk_spawner(0)
+    out = eval(res)
+else:
+    out = run_two(KIND)
+
+def inv(fn, *a):
+    mem = fn.memento(*a)
+    return None if mem is None else sorted(i.fn_reference.qualified_name.split(":")[-1].split("#")[0] for i in mem.invocation_metadata.invocations)
+
+from twosigma.memento.call_stack import CallStack
+print("CHILD-JSON " + json.dumps({"out": out, "trace": sorted(trace), "inv_outer": inv(tk_outer, 1), "inv_other": inv(tk_other, 2),
+                                  "inv_spawner": inv(tk_spawner, 0) if KIND.startswith("thread started") else None,
+                                  "depth": CallStack.get().depth()}))
+'''
+
+
+@obligation(
+    "C09.thread_kinds",
+    covers=tuple("kind:" + k for k in THREAD_KINDS) + ("creating-thread-used-memento-before",),
+    split={"kind": list(range(len(THREAD_KINDS)))},
+    bounds="REAL threads in a real child interpreter (no twins, no scheduler: the overlap is forced by events inside the bodies): two "
+           "threads created as threading.Thread / by a ThreadPoolExecutor / by asyncio.to_thread / as Thread(target=copy_context().run) / "
+           "from inside a running memento body; thread 1 calls tk_outer(1) (whose body calls tk_inner), thread 2 calls tk_other(2) while "
+           "that body is running; the creating thread has used memento before or not; memory and fs+cache: both callers get their "
+           "values, nothing escapes, every body runs once, and the recorded invocations of each call are its own (tk_outer: [tk_inner], "
+           "tk_other: none, a spawning body: none)",
+    variables="choice: thread kind, warm bit, store",
+    budget_s={"quick": 170, "thorough": 300},
+    choice_vars=3,
+)
+def thread_kinds(kind: int, warm: bool, fs: bool):
+    import json
+    import subprocess
+
+    w = True if warm else False
+    f_ = True if fs else False
+    with concrete_region():
+        cover("kind:" + THREAD_KINDS[kind])
+        if w:
+            cover("creating-thread-used-memento-before")
+        sb = Sandbox(kinds="memory")
+        try:
+            code = TK_CHILD % {"repo": os.environ.get("VP_REPO", "/repo"), "root": sb.root, "fs": f_, "kind": THREAD_KINDS[kind], "warm": w}
+            env = dict(os.environ)
+            env["MEMENTO_LOG_LEVEL"] = "CRITICAL"
+            p = subprocess.run(["/venv/bin/python", "-c", code], capture_output=True, text=True, env=env, timeout=150)
+            got = None
+            for line in p.stdout.splitlines():
+                if line.startswith("CHILD-JSON "):
+                    got = json.loads(line[len("CHILD-JSON "):])
+            check("child-interpreter-completes", got is not None, p.stderr[-600:])
+            check("each-caller-receives-the-correct-value", got["out"].get("outer") == ["ok", 4] and got["out"].get("other") == ["ok", 200], got["out"])
+            check("every-body-runs-once", got["trace"] == [["tk_inner", 1], ["tk_other", 2], ["tk_outer", 1]], got["trace"])
+            check("recorded-invocations-of-each-call-are-its-own", got["inv_outer"] == ["tk_inner"] and got["inv_other"] == [], (got["inv_outer"], got["inv_other"]))
+            if THREAD_KINDS[kind].startswith("thread started"):
+                check("calls-made-by-threads-a-body-started-are-not-the-body's-calls", got["inv_spawner"] == [], got["inv_spawner"])
+            check("call-stack-empty-afterwards", got["depth"] == 0, got["depth"])
+        finally:
+            sb.close()
